@@ -311,6 +311,10 @@ def run_shard(spec):
                 for seg in base_path:
                     sub = sub.children[seg]
                 root_keys = [k for k, nd in sub.children.items() if nd.kind == "set" and nd.via_attrpath]
+            elif isinstance(scope_layer, int):
+                # dotted bindings in a let layer: `let fam.x = 1; fam.y = 2; in ..`
+                lt = A.merge(dv.layers[scope_layer])
+                root_keys = [k for k, nd in lt.children.items() if nd.kind == "set" and nd.via_attrpath]
             inherit_keys = [k for k, v in view.items() if not isinstance(v, dict) and v[1] and v[1][0][0] == "inherit"]
             opk = rng.choice(["set", "set", "del", "get", "get", "set-into-leaf"])
             kc = rng.random()
